@@ -375,5 +375,6 @@ func main() {
 		}
 	}
 	batch.Run(r, "hists", args, par, 20*time.Minute, func(inflight, head string) string { return "crash:" + head })
+	batch.ReportRaces(r, "/chord.", "/kv/")
 	r.Finish()
 }
